@@ -689,7 +689,7 @@ func (ex *Exec) callExternal(c *ast.CallExpr, o *types.Func, args []Term, argTyp
 	case "regexp.Regexp.MatchString":
 		return []Term{ufun("reMatch", SBool, args[0], args[1])}
 	case "regexp.Regexp.ReplaceAllString":
-		return []Term{ufun("reReplaceAll", SString, args[0], args[1], args[2])}
+		return []Term{ufun("reReplaceAll", SString, Term{args[0].S, SInt}, args[1], args[2])}
 	case "bytes.NewBuffer":
 		r := ufun("bytesBuffer", ex.U.SortOf(sig.Results().At(0).Type()), args[0])
 		ex.fact(Term{"(> " + r.S + " 0)", SBool})
@@ -719,7 +719,16 @@ func (ex *Exec) callExternal(c *ast.CallExpr, o *types.Func, args []Term, argTyp
 		return []Term{err}
 	case "regexp.MustCompile":
 		ex.note("regexp.MustCompile assumed not to panic (constant patterns)")
-		return []Term{ufun("reCompile", ex.U.SortOf(sig.Results().At(0).Type()), args[0])}
+		r := ufun("reCompile", SInt, args[0])
+		return []Term{{r.S, ex.U.SortOf(sig.Results().At(0).Type())}}
+	case "regexp.Compile":
+		r := ufun("reCompile", SInt, args[0])
+		errv := ex.U.Fresh("reErr", SAny)
+		if _, isConst := constString(ex.info, c.Args[0]); isConst {
+			ex.fact(Eq(errv, Term{"nilAny", SAny}))
+			ex.note("regexp.Compile of a constant pattern assumed to succeed")
+		}
+		return []Term{{r.S, ex.U.SortOf(sig.Results().At(0).Type())}, errv}
 	}
 	if r, ok := ex.osModel(full, c, args); ok {
 		return r
